@@ -635,19 +635,31 @@ func genFloatsWithin(g *vlib.G) {
 		n := n
 		g.Case(fmt.Sprintf("Within all sequences n=%d", n), func(t *vlib.T) {
 			qs := []float64{ninf, -2, -1, -0.5, 0, 0.5, 1, 1.5, 2, 3, pinf, nan}
-			cnt, sorted, unsorted := 0, 0, 0
+			cnt, sorted, unsorted, dontcare := 0, 0, 0, 0
 			seqs([]float64{ninf, -1, 0, 1, 2, pinf, nan}, n, n, func(s []float64) {
-				// "sorted" in the sense of sort.Float64sAreSorted (NaNs first), which is what the panic message refers to
+				// Whether a slice containing NaN is "sorted" is not defined by the
+				// documentation (NaN is unordered; the implementation happens to use
+				// sort.Float64sAreSorted, which puts NaNs first): don't-care zone.
+				// With n >= 2 such a call may panic or return any index in [-1, n-2].
 				isSorted := true
 				for i := 0; i+1 < n; i++ {
-					if s[i+1] < s[i] || (math.IsNaN(s[i+1]) && !math.IsNaN(s[i])) {
+					if s[i+1] < s[i] {
 						isSorted = false
 					}
 				}
+				nanIn := hasNaN(s)
 				for _, v := range qs {
 					cnt++
 					var got int
 					p := mustPanic(func() { got = floats.Within(s, v) })
+					if n >= 2 && nanIn {
+						dontcare++
+						if !p && (got < -1 || got > n-2) {
+							t.Failf("Within(%s,%v)=%d out of range", fstr(s), v, got)
+							return
+						}
+						continue
+					}
 					if n < 2 || !isSorted {
 						unsorted++
 						if !p {
@@ -669,10 +681,6 @@ func genFloatsWithin(g *vlib.G) {
 						}
 					}
 					if got != want {
-						if hasNaN(s) {
-							t.FailClass("within-nan-prefix", "Within(%s,%v)=%d want %d: s[%d] <= v does not hold", fstr(s), v, got, want, got)
-							continue
-						}
 						t.Failf("Within(%s,%v)=%d want %d", fstr(s), v, got, want)
 						return
 					}
@@ -680,6 +688,7 @@ func genFloatsWithin(g *vlib.G) {
 			})
 			t.Count("within_sorted", int64(sorted))
 			t.Count("within_panics_expected", int64(unsorted))
+			t.Count("within_nan_dontcare", int64(dontcare))
 			if n >= 2 {
 				t.Nontrivial()
 			}
